@@ -4,7 +4,7 @@
                      CSET = 0..65535, BSET = 0..255 this is all 2^24 pairs.
    MODE "feed"     : all ways of feeding all buffers over ALPHA up to MAXLEN in pieces.
    MODE "export"   : writes Tab as JSON for the C driver (the driver never reads the C table).  *)
-EXTENDS Crc16, TLC, FiniteSets, Json, IOUtils
+EXTENDS Crc16Feed, TLC, FiniteSets, Json, IOUtils
 CONSTANTS CSET, BSET, ALPHA, MAXLEN, MODE
 
 VARIABLES c, b, hist
